@@ -99,7 +99,9 @@ type Options struct {
 	SelectDev    bool                   // allow non-first ready select arm (cost 1)
 	KeysDev      bool                   // allow non-sorted map orders (cost 1)
 	Filter       func(site string) bool // pre-emptive alternatives only at these sites (nil: everywhere)
-	NoPreemptAt  func(kind, site string) bool
+	// FreeSwitch: switching away from a runnable thread parked at such a point costs nothing
+	// (environment timing: informer lag, hook duration), all alternatives are explored.
+	FreeSwitch   func(kind, site string) bool
 	RecordTrace  bool
 	MaxIdleTicks int
 }
@@ -285,14 +287,18 @@ func (x *Exec) schedule(from *thread) {
 		if n > 1 {
 			preempt := fromEnabled
 			st := list[0].pend.site
-			if preempt {
+			if preempt && !(x.opts.FreeSwitch != nil && x.opts.FreeSwitch(from.pend.kind, from.pend.site)) {
 				if x.opts.Filter != nil && !x.opts.Filter(from.pend.site) {
 					// pre-emption not wanted here: no choice point at all
 					n = 1
 				}
 			}
 			if n > 1 {
-				idx = x.choose(n, "sched", st, preempt || (clockAlt && len(list) == 1), from.id)
+				costly := preempt || (clockAlt && len(list) == 1)
+				if preempt && x.opts.FreeSwitch != nil && x.opts.FreeSwitch(from.pend.kind, from.pend.site) {
+					costly = false
+				}
+				idx = x.choose(n, "sched", st, costly, from.id)
 			}
 		}
 		if idx >= len(list) {
